@@ -217,7 +217,7 @@ func (fr *Frame) extraExternal(ins ssa.Instruction, fn *ssa.Function, c *ssa.Cal
 		fx.s.assume(st.guard, fmt.Sprintf("(forall ((k Int)) (! (=> (and (<= 0 k) (< k (slen %s))) (not (= (select %s (elemref %s k)) niliface))) :pattern ((elemref %s k))))", res[0].t, h, res[0].t, res[0].t))
 		return res, true
 	case "(*encoding/csv.Reader).Read":
-		fx.trusted["(*encoding/csv.Reader).Read: returns an error, or a record with exactly csv_nfields(r) >= 1 fields (FieldsPerRecord == 0: as many as the first record); the record is freshly allocated unless r.ReuseRecord is set, in which case it may share its backing array with records returned earlier by r (whose contents are then overwritten); a reader yields finitely many records; nothing else is modified; never panics"] = true
+		fx.trusted["(*encoding/csv.Reader).Read: returns an error, or a record with exactly csv_nfields(r) >= 1 fields when r.FieldsPerRecord >= 0 (0: as many as the first record) and with any number of fields when it is negative; the record is freshly allocated unless r.ReuseRecord is set, in which case it may share its backing array with records returned earlier by r (whose contents are then overwritten); a reader yields finitely many records; nothing else is modified; never panics"] = true
 		r := args[0].t
 		fr.safety("safe:nil", ins, fr.describe(c.Args[0])+".Read", st, not(eq(r, "nilref")))
 		rt := c.Args[0].Type().Underlying().(*types.Pointer).Elem()
@@ -225,9 +225,13 @@ func (fr *Frame) extraExternal(ins ssa.Instruction, fn *ssa.Function, c *ssa.Cal
 		key, srt := fx.tm.heapKey(rt)
 		hr := fx.heap(st, key, srt)
 		reuse := "false"
+		fpr := "0"
 		for _, f := range si.Fields {
 			if f.Name == "ReuseRecord" {
 				reuse = fmt.Sprintf("(%s (select %s %s))", f.Sel, hr, r)
+			}
+			if f.Name == "FieldsPerRecord" {
+				fpr = fmt.Sprintf("(%s (select %s %s))", f.Sel, hr, r)
 			}
 		}
 		fx.ufun("csv_nfields", []string{"Ref"}, "Int")
@@ -238,7 +242,11 @@ func (fr *Frame) extraExternal(ins ssa.Instruction, fn *ssa.Function, c *ssa.Cal
 		fresh := fx.allocRef(st, "0")
 		recObj := fx.s.define("recobj", "Int", ite(and(reuse, b), "(obj "+r+")", "(obj "+fresh+")"))
 		other := fx.havocVal("rec_on_err", c.Signature().Results().At(0).Type(), st)
-		rec := fx.s.define("record", "Slice", ite(okc, fmt.Sprintf("(mkslice %s 0 (csv_nfields %s) (csv_nfields %s))", recObj, r, r), other.t))
+		// FieldsPerRecord < 0: the reader does not check the number of fields; records may have any length
+		anyLen := fx.s.freshConst("reclen", "Int")
+		fx.s.assume("true", "(>= "+anyLen+" 0)")
+		nf := fx.s.define("nfields", "Int", ite("(< "+fpr+" 0)", anyLen, "(csv_nfields "+r+")"))
+		rec := fx.s.define("record", "Slice", ite(okc, fmt.Sprintf("(mkslice %s 0 %s %s)", recObj, nf, nf), other.t))
 		skey, ssrt := fx.tm.heapKey(types.Typ[types.String])
 		h := fx.heap(st, skey, ssrt)
 		nh := fx.s.freshConst("Hcsv", "(Array Ref "+ssrt+")")
